@@ -554,12 +554,12 @@ func (w *World) checkSupply() *Problem {
 	if got := cur(r.TaxPool); got != w.CS.SiafundTaxRevenue {
 		return problem("supply|taxpool", "height %d: state tax pool %v, reference %v", w.Height(), w.CS.SiafundTaxRevenue, got)
 	}
-	var sf uint64
+	sf := new(bigInt) // arbitrary precision: a uint64 sum would wrap exactly where a fixed-width validator does
 	for _, e := range w.Store.SF {
-		sf += e.SiafundOutput.Value
+		sf.Add(sf, new(bigInt).SetUint64(e.SiafundOutput.Value))
 	}
-	if sf != r.GenesisSF {
-		return problem("supply|siafunds", "height %d: %d siafunds in unspent outputs, genesis allocated %d", w.Height(), sf, r.GenesisSF)
+	if sf.Cmp(new(bigInt).SetUint64(r.GenesisSF)) != 0 {
+		return problem("supply|siafunds", "height %d: %v siafunds in unspent outputs, genesis allocated %d", w.Height(), sf, r.GenesisSF)
 	}
 	if len(w.Hist) > 0 {
 		a := w.Hist[len(w.Hist)-1]
